@@ -6,17 +6,19 @@ use std::io::Write;
 const COLS: &[&str] = &[
     "*", "*", "a", "a", "b", "c", "(a|b)", "(b|a)", "(b|c)", "(a)", "あ", "(あ|a)", "x", "y", "()", "(", "(|a)", "ab", "*a",
 ];
+// alternative lists whose first member starts with '(' or whose last member ends with ')'
+const PAREN_COLS: &[&str] = &["((|a)", "(a|))", "((|))", "(()", "())", "((|b|[)", "(]|a|))"];
 const OUTS: &[&str] = &[
     "$1", "$2", "$3", "$4", "$5", "R", "S", "*", "$", "$x", "$1x", "あ", "$10", "x$1", "$01",
 ];
-const FEATS: &[&str] = &["a", "a", "b", "b", "c", "あ", "x", "y", "", "ab", "*"];
+const FEATS: &[&str] = &["a", "a", "b", "b", "c", "あ", "x", "y", "", "ab", "*", "(", ")", "[", "]"];
 
 fn gen_rule(rng: &mut Rng, tag: usize, dirty: bool) -> String {
     let ncol = 1 + rng.below(4) as usize;
     let mut cols = vec![];
     for _ in 0..ncol {
         // mostly the small alphabet so that rules overlap
-        let c = if !dirty || rng.chance(9, 10) { COLS[rng.below(9) as usize] } else { *rng.pick(COLS) };
+        let c = if rng.chance(1, 12) { *rng.pick(PAREN_COLS) } else if !dirty || rng.chance(9, 10) { COLS[rng.below(9) as usize] } else { *rng.pick(COLS) };
         cols.push(c.to_string());
     }
     let nout = 1 + rng.below(3) as usize;
@@ -87,7 +89,7 @@ pub fn gen_text(rng: &mut Rng) -> String {
 
 pub fn gen_features(rng: &mut Rng) -> Vec<String> {
     let n = if rng.chance(1, 8) { 0 } else { 1 + rng.below(5) as usize };
-    (0..n).map(|_| if rng.chance(4, 5) { FEATS[rng.below(5) as usize] } else { *rng.pick(FEATS) }.to_string()).collect()
+    (0..n).map(|_| if rng.chance(3, 4) { FEATS[rng.below(5) as usize] } else { *rng.pick(FEATS) }.to_string()).collect()
 }
 
 type Obs = (Vec<[Option<Vec<String>>; 3]>, [usize; 3]);
